@@ -34,9 +34,19 @@ CLAIMED = {
         "interleaving of relayed units and every re-chunking, each worker looks up exactly the other workers' ids, each "
         "once, never its own. The model loop is compared with the real handle_notify/connect coroutines on StreamReaders "
         "fed chunk by chunk (all cut positions of 1-3 ids, random chunkings, several origins, disconnect mid-id). The "
-        "read(32) defect of the pinned tree was repaired by a fix: commit; the old loop is kept as a Lean counter-witness.",
+        "read(32) defect of the pinned tree was repaired by a fix: commit; the old loop is kept as a Lean counter-witness. "
+        "Storage glue (Model/Announce.lean, Props/C20Glue.lean): for every interleaving of accepted submissions, writer-thread "
+        "takes and commits, an id of an event that is written at all is announced only once other workers can load it "
+        "(C20_sql_announced_loadable, C20_kv_announced_loadable), the announced ids of written events are exactly the committed "
+        "ids in commit order, none twice (C20_glue_announced_once), and nothing acknowledged as new is left unannounced when the "
+        "writer is idle (C20_glue_accepted_announced). Tie: the real add_event on both backends with the notifier replaced by a "
+        "probe that, at the instant of the announcement, asks an independent reader of the shared database whether the event "
+        "can be loaded (second SQLite connection; LMDB read transaction with the real writer thread, also while another writer "
+        "holds the write lock); every observed schedule is replayed through the model. One fix: commit (LMDB announced before "
+        "the commit) and one open finding (LMDB ephemeral events cannot be loaded by peers) came out of it.",
         "Trusted: Lean kernel + standard axioms; asyncio.StreamReader/transport semantics (one write() per unit is "
-        "contiguous on the peer stream); TCP; storage.get_event/notify_all_connected are stubs here (C05 covers fan-out).",
+        "contiguous on the peer stream); TCP and the notify server process beyond their byte streams; in the framing part "
+        "storage.get_event/notify_all_connected are stubs (C05 covers fan-out).",
         "DESIGN.md §6 C20",
     ),
     "C10": (
@@ -253,7 +263,11 @@ CLAIMED = {
         "seen by an observer, or superseded; OK=false implies stored set, keyspace and observer untouched and a reason "
         "given; valid events are refused only as duplicates; resubmissions change nothing and are not re-broadcast. Two "
         "defects found here were repaired (LMDB acknowledged-but-lost / duplicates; SQL resubmission deleting older "
-        "versions).",
+        "versions). Props/C06Inflight.lean over Model/Announce.lean (LMDB add_event + writer thread as submissions, writer "
+        "takes and commits): a storable event whose id is stored, being written or queued changes nothing "
+        "(C06_kv_resubmission_refused) and, under every interleaving, the events acknowledged as new have pairwise distinct "
+        "ids (C06_kv_accepted_once, C06_sql_accepted_once); tied by the in-flight scenario with the real writer thread "
+        "(another writer holds the write lock while the event is resubmitted).",
         "Trusted: the 'one OK frame per EVENT' part is observed on the real handler, its proof belongs to the protocol "
         "model (C13/C19); quiescence is established by settling the loop and draining the writer.",
         "DESIGN.md §6 C06",
